@@ -50,6 +50,7 @@ def errName : Err → String
   | .txs => "txs"
   | .root => "root"
   | .sigs => "sigs"
+  | .feePanic => "fee-panic"
 
 def parseRules (ws : List String) : Option (Int × Int × Int × Int × Int) :=
   match ws.map parseI64 with
@@ -58,8 +59,8 @@ def parseRules (ws : List String) : Option (Int × Int × Int × Int × Int) :=
 
 /--
 `seq <T0> gen <g1> <e1> <sw> <g2> <e2>`                     parent = the real genesis commit
-`seq <T0> syn <g1> <e1> <sw> <g2> <e2> <hraw|x> <traw|x> <x|e>`  parent = hand-made state
-`exec <height> <a..|n..> <0|v|i|s> <p|r> <y|n>`             one `Processor.Execute`
+`seq <T0> syn <g1> <e1> <sw> <g2> <e2> <hraw|x> <traw|x> <x|e|s>`  parent = hand-made state
+`exec <height> <a..|n..> <0|v|i|s|V|w> <p|r> <y|n|f>`             one `Processor.Execute`
 -/
 def step (s : St) (ws : List String) : St × String :=
   match ws with
@@ -77,6 +78,8 @@ def step (s : St) (ws : List String) : St × String :=
             ({ base with parent := { heightRaw := h, tsRaw := t, feeRaw := none, root := 0 } }, "ok")
           else if f == "e" then
             ({ base with parent := { heightRaw := h, tsRaw := t, feeRaw := some [], root := 0 } }, "ok")
+          else if f == "s" then
+            ({ base with parent := { heightRaw := h, tsRaw := t, feeRaw := some [1, 2, 3], root := 0 } }, "ok")
           else ({ s with live := false }, "bad-op")
         | _, _ => ({ s with live := false }, "bad-op")
       | _, _ => ({ s with live := false }, "bad-op")
@@ -89,11 +92,13 @@ def step (s : St) (ws : List String) : St × String :=
       let txk : Option (Nat × Bool × Bool) :=
         if tx == "0" then some (0, true, true) else if tx == "v" then some (1, true, true)
         else if tx == "i" then some (1, false, true) else if tx == "s" then some (1, true, false)
+        else if tx == "V" then some (2, true, true) else if tx == "w" then some (1, true, true)
         else none
       let rkk : Option Nat :=
         if rk == "p" then some s.parent.root else if rk == "r" then some (s.parent.root + 1000000)
         else none
-      let rpk : Option Bool := if rp == "y" then some false else if rp == "n" then some true else none
+      let rpk : Option Bool :=
+        if rp == "y" then some false else if rp == "n" || rp == "f" then some true else none
       match txk, rkk, rpk with
       | some (n, txsOk, sigsOk), some root, some replayOk =>
         let env : Env := { now := s.t0, rules := rulesOf s, replayOk := replayOk, txsOk := txsOk,
